@@ -932,6 +932,12 @@ impl<'a> Searcher<'a> {
 
     #[cfg(unix)]
     fn ok_to_visit_dir(&mut self, entry: &DirEntry, file_type: FileType) -> bool {
+        // without `symlinks` nothing is followed: no directory can be reached twice through a link, and one
+        // that really is there twice (a bind mount) is listed in both places, like any other directory
+        if !self.current_follow_symlinks {
+            return !file_type.is_symlink();
+        }
+
         // an inode number identifies a directory only together with its device:
         // the numbers repeat from one file system to the next
         // (both numbers from the same lstat: the inode number readdir reports for a mount point
